@@ -96,6 +96,9 @@ def has_self(repo, fs):
     return any(st[i][1] == 'self' for i in range(po, pc))
 
 
+SPINOFF = os.environ.get('VERIF_SPINOFF', '1') == '1'
+
+
 class Generated:
     def __init__(self):
         self.text = ''
@@ -274,6 +277,9 @@ def assemble(repo=REPO, mutate_hook=None, only_units=None, canary=False, skip=()
                 cur_emit = emit
             for a in fs.attrs:
                 out.append((a, fs.fid, ('glue', None)))
+            if not fs.external and SPINOFF:
+                # one prover instance per function: Verus schedules buckets, not functions, across its threads
+                out.append(('#[verifier::spinoff_prover]', fs.fid, ('glue', None)))
             if fs.external:
                 out.append(('#[verifier::external_body]', fs.fid, ('glue', None)))
                 G.trusted.append('external_body %s (contract assumed, body not verified; %s)' % (fs.fid, fs.origin))
